@@ -319,6 +319,48 @@ func (m *Model) RunLayout(s *Sink, rule string) {
 		check(fnKey(er)+"|insert content is evaluated with the data of the call", m.Pos(er.Pos()), okEnv,
 			"Eval(node.Insert.Block, env) and Eval(node.Insert.Argument, env) use the environment of the render call",
 			"the insert's block or expression is not evaluated in the environment of the render call")
+		// what fills the reserve is the value of that evaluation, nothing else (a literal taken over unevaluated
+		// would skip the escaping every literal undergoes)
+		okVal, nSt := true, 0
+		for _, h := range m.helpersOf(er) {
+			for _, b := range h.Blocks {
+				for _, in := range b.Instrs {
+					st, isSt := in.(*ssa.Store)
+					if !isSt {
+						continue
+					}
+					fa, isFA := st.Addr.(*ssa.FieldAddr)
+					if !isFA || !strings.HasSuffix(derefTypeString(fa.X.Type()), "object.Reserve") {
+						continue
+					}
+					fname := fieldName(fa.X.Type(), fa.Field)
+					want := map[string]string{"Argument": ".Insert.Argument", "Content": ".Insert.Block"}[fname]
+					if want == "" {
+						continue
+					}
+					nSt++
+					fromEval := false
+					for _, r := range m.resolveUp(stripIface(st.Val), er, 0) {
+						v := stripIface(r)
+						if ex, isEx := v.(*ssa.Extract); isEx {
+							v = ex.Tuple
+						}
+						if c, isC := v.(*ssa.Call); isC && isEvalCall(m, c) && strings.HasSuffix(fieldPathOf(stripIface(c.Call.Args[1])), want) {
+							fromEval = true
+						} else {
+							fromEval = false
+							break
+						}
+					}
+					if !fromEval {
+						okVal = false
+					}
+				}
+			}
+		}
+		check(fnKey(er)+"|the reserve is filled with the value of the insert's expression or block", m.Pos(er.Pos()), okVal && nSt >= 2,
+			"Reserve.Argument and Reserve.Content only ever receive the results of Eval(node.Insert.Argument) / Eval(node.Insert.Block)",
+			"the reserve's Argument or Content is filled with something other than the evaluated insert (e.g. a literal taken over unevaluated, which skips its escaping)")
 		okNil := false
 		for _, b := range er.Blocks {
 			if ret, isRet := b.Instrs[len(b.Instrs)-1].(*ssa.Return); isRet {
